@@ -64,7 +64,120 @@ func c10(tier string) []*explore.Scenario {
 			out = append(out, c10One(set, c10End{"write", k}, bound))
 		}
 	}
+	for _, end := range []string{"stop", "read-fails-on-first", "stop-then-serve"} {
+		out = append(out, c10TwoConns(end, 1))
+	}
 	return out
+}
+
+// c10TwoConns: one Server object serves two connections, each with a unary and
+// a streaming handler blocked on its context. Stop ends both Serve calls; a
+// read failure on the first connection ends only that one and leaves the second
+// serving; a Serve started after Stop returns at once instead of serving.
+func c10TwoConns(end string, bound int) *explore.Scenario {
+	fam := "C10/" + strings.SplitN(end, "-", 2)[0]
+	return &explore.Scenario{
+		Name: "C10/two-connections/" + end, Family: fam, Prop: "C10", Bound: bound,
+		Run: func() {
+			w := env.NewWorld()
+			d := env.NewDirect(w, env.DirectOpts{Pipe: env.PipeOpts{Cap: 16}, NoClient: true})
+			p2 := env.NewPipe(d.Tap, env.PipeOpts{Name: "w2", Cap: 16})
+			serve2Done := false
+			var serve2Err error
+			vsched.GoNamed("serve2", func() { serve2Err = d.Srv.Serve(context.Background(), p2.B); serve2Done = true })
+			release := make(chan struct{})
+			var recs []*env.Rec
+			for ci, pipe := range []*env.Pipe{d.Pipe, p2} {
+				ut, st := fmt.Sprintf("u%d", ci), fmt.Sprintf("s%d", ci)
+				recs = append(recs, w.Rec(ut, "Unary"), w.Rec(st, "Bidi"))
+				w.Unaries[ut] = func(r *env.Rec, ctx context.Context, in string) (string, error) {
+					select {
+					case <-ctx.Done():
+					case <-release:
+					}
+					return "late", nil
+				}
+				w.Handlers[st] = func(r *env.Rec, ss grpc.ServerStream) error {
+					select {
+					case <-ss.Context().Done():
+					case <-release:
+					}
+					return status.Error(codes.Aborted, "released")
+				}
+				pipe.A.Inject(env.ReqUnary(1, ut, "x"))
+				pipe.A.Inject(env.ReqOpen(2, env.MBidi, st))
+			}
+			vsched.Settle()
+			vsched.Explore(true)
+			switch end {
+			case "stop", "stop-then-serve":
+				d.Srv.Stop()
+			case "read-fails-on-first":
+				d.Pipe.A.Break()
+				d.Pipe.B.Break()
+			}
+			vsched.Quiesce()
+			ctxDone := func(r *env.Rec) bool { return r.HCtx != nil && vctx.IsDone(r.HCtx) }
+			if !d.ServeDone {
+				vsched.Fail(fam+"|serve-hang", "two connections on one Server, %s: Serve of the first connection did not return; threads: %s", end, threadList())
+			}
+			for _, r := range recs[:2] {
+				if r.HStarts == 1 && !ctxDone(r) && !r.HReturned {
+					vsched.Fail(fam+"|ctx-not-cancelled", "two connections, %s: handler %s of the ended connection still has a live context", end, r.Tag)
+				}
+			}
+			if end == "read-fails-on-first" {
+				if serve2Done {
+					vsched.Fail(fam+"|other-connection-ended", "the first connection's read failed and the second connection's Serve returned too (%v)", serve2Err)
+				}
+				for _, r := range recs[2:] {
+					if ctxDone(r) || r.HReturned {
+						vsched.Fail(fam+"|other-connection-ended", "the first connection's read failed and handler %s of the second connection was cancelled", r.Tag)
+					}
+				}
+				pr := w.Rec("probe", "Unary")
+				p2.A.Inject(env.ReqUnary(9, "probe", "x"))
+				vsched.Quiesce()
+				if pr.HStarts != 1 {
+					vsched.Fail(fam+"|other-connection-ended", "after the first connection ended the second no longer serves requests")
+				}
+			} else {
+				if !serve2Done {
+					vsched.Fail(fam+"|serve-hang", "Stop: Serve of the second connection did not return; threads: %s", threadList())
+				}
+				for _, r := range recs[2:] {
+					if r.HStarts == 1 && !ctxDone(r) && !r.HReturned {
+						vsched.Fail(fam+"|ctx-not-cancelled", "Stop: handler %s of the second connection still has a live context", r.Tag)
+					}
+				}
+			}
+			if end == "stop-then-serve" {
+				p3 := env.NewPipe(d.Tap, env.PipeOpts{Name: "w3", Cap: 16})
+				s3 := false
+				vsched.GoNamed("serve3", func() { d.Srv.Serve(context.Background(), p3.B); s3 = true })
+				lr := w.Rec("late", "Unary")
+				p3.A.Inject(env.ReqUnary(1, "late", "x"))
+				vsched.Quiesce()
+				if !s3 {
+					vsched.Fail(fam+"|serve-hang", "a Serve started after Stop keeps running (handler ran %d times); threads: %s", lr.HStarts, threadList())
+				}
+				p3.A.Break()
+				p3.B.Break()
+			}
+			close(release)
+			d.Pipe.A.Break()
+			d.Pipe.B.Break()
+			p2.A.Break()
+			p2.B.Break()
+			vsched.Quiesce()
+			if !d.ServeDone || !serve2Done {
+				vsched.Fail(fam+"|serve-hang", "after everything was released and closed: serve1 done=%v serve2 done=%v", d.ServeDone, serve2Done)
+			}
+			if ts := vsched.Threads(); len(ts) > 0 {
+				vsched.Fail(fam+"|goroutine-leak", "two connections, %s: after both connections ended and all handlers were released, goroutines remain: %s", end, threadList())
+			}
+		},
+	}
 }
 
 func c10Reqs(c rune) int {
